@@ -33,7 +33,12 @@ fn tag_of(t: &Value) -> Option<String> {
         s.push_str(&format!("({n})"));
     }
     if d >= 0 {
-        s.push_str(&format!(".after({d}s)"));
+        // composite durations for the larger values
+        match d {
+            90 => s.push_str(".after(1m30s)"),
+            120 => s.push_str(".after(2min)"),
+            _ => s.push_str(&format!(".after({d}s)")),
+        }
     }
     Some(s)
 }
@@ -65,7 +70,9 @@ pub fn retry_vector(l: &Value) -> Value {
     let has_rule = v["hasRule"].as_bool().unwrap_or(false);
     let flt = v["fltLevel"].as_str().unwrap_or("none");
     let tags = |level: &str, t: &Value| {
-        let mut out: Vec<String> = tag_of(t).into_iter().collect();
+        // an unrelated tag first: the retry tag is not the first tag
+        let mut out: Vec<String> = vec!["other".to_owned()];
+        out.extend(tag_of(t));
         if flt == level {
             out.push("flt".into());
         }
